@@ -20,7 +20,7 @@ structure UOK (U : Id → Option Blk) : Prop where
     with that id lies below the LIB) -/
 def SentAnc (U : Id → Option Blk) (F : List Id) (db : DB) : Prop :=
   ∀ e ∈ db.entries, e.sent = true →
-    e.blk.parent ∈ F ∨ (∃ p, db.find e.blk.parent = some p ∧ p.sent = true) ∨
+    e.blk.id ∈ F ∨ e.blk.parent ∈ F ∨ (∃ p, db.find e.blk.parent = some p ∧ p.sent = true) ∨
     (db.find e.blk.parent = none ∧ ∀ pb, U e.blk.parent = some pb → pb.num < db.libRef.num)
 
 structure Inv2 (U : Id → Option Blk) (F : List Id) (db : DB) : Prop where
@@ -72,7 +72,20 @@ theorem sentClosed_of_inv2 (U : Id → Option Blk) (F : List Id) (db : DB) (hw :
         cases hfy : db.find y with
         | none => rw [hfy] at hypres; cases hypres
         | some ey =>
-          rcases hJ.anc ex (find_mem db x ex hfx) hxs with ha | ⟨p, hpf, hps⟩ | ⟨hnone, _⟩
+          rcases hJ.anc ex (find_mem db x ex hfx) hxs with hself | ha | ⟨p, hpf, hps⟩ | ⟨hnone, _⟩
+          · -- x itself would be a former LIB lying above the LIB
+            exfalso
+            have hxid : ex.blk.id = x := find_id db x ex hfx
+            rw [hxid] at hself
+            have hxne : x ≠ db.libRef.id := fun hc => hn (by simp [hc])
+            have h1 := hJ.finalsBelow x hself hxne ex.blk (by
+              have := hJ.inU ex (find_mem db x ex hfx); rw [hxid] at this; exact this)
+            have h2 := heights_path db hh _ db.libRef.num _ hp.1 hh.2.1
+            -- x is the top of the path: it lies above the LIB
+            have hpx : IsPath db db.libRef.id ((l ++ [y]) ++ [x]) := by
+              rw [isPath_append]; exact ⟨hp.1, hp.2⟩
+            have h3 := heights_path db hh _ db.libRef.num _ hpx hh.2.1 x (by simp) ex hfx
+            omega
           · -- y would be a former LIB lying above the LIB
             exfalso
             rw [hexp] at ha
@@ -110,15 +123,16 @@ theorem inv2_append (U : Id → Option Blk) (F : List Id) (db : DB) (hJ : Inv2 U
   · intro e he hs
     simp only [appendBlk, List.mem_append, List.mem_singleton] at he
     rcases he with he | rfl
-    · rcases hJ.anc e he hs with ha | ⟨p, hpf, hps⟩ | ⟨hnone, hlow⟩
-      · exact Or.inl ha
+    · rcases hJ.anc e he hs with hself | ha | ⟨p, hpf, hps⟩ | ⟨hnone, hlow⟩
+      · exact Or.inl hself
+      · exact Or.inr (Or.inl ha)
       · have hne : e.blk.parent ≠ b.id := by intro hc; rw [hc, hf] at hpf; cases hpf
-        exact Or.inr (Or.inl ⟨p, by unfold appendBlk; rw [find_append_other db b _ hne]; exact hpf, hps⟩)
+        exact Or.inr (Or.inr (Or.inl ⟨p, by unfold appendBlk; rw [find_append_other db b _ hne]; exact hpf, hps⟩))
       · by_cases hc : e.blk.parent = b.id
         · exfalso
           have := hlow b (by rw [hc]; exact hbU)
           exact hnd ⟨e, he, hs⟩ this
-        · exact Or.inr (Or.inr ⟨by unfold appendBlk; rw [find_append_other db b _ hc]; exact hnone, hlow⟩)
+        · exact Or.inr (Or.inr (Or.inr ⟨by unfold appendBlk; rw [find_append_other db b _ hc]; exact hnone, hlow⟩))
     · cases hs
   · intro e he
     simp only [appendBlk, List.mem_append, List.mem_singleton] at he
@@ -151,8 +165,8 @@ theorem inv2_sent (U : Id → Option Blk) (F : List Id) (db1 db2 : DB) (hw : WfE
       rw [hid] at hf0
       rw [link_of_find db1 _ e0 hf0, hblk] at hlink
       rcases topOf_mem db1.libRef.id l1 with ht | ht
-      · left; rw [hlink, ht]; exact hJ.libF
-      · right; left
+      · right; left; rw [hlink, ht]; exact hJ.libF
+      · right; right; left
         rw [hlink]
         exact find_sent_of_isSent db2 _ (hin _ (by rw [hL]; exact List.mem_append_left _ ht))
     · have hs1 : e0.sent = true := by
@@ -161,13 +175,14 @@ theorem inv2_sent (U : Id → Option Blk) (F : List Id) (db1 db2 : DB) (hw : WfE
         rw [hid, ← hout _ hm, h2] at h1
         rw [← h1]; exact hs'
       rw [← hblk]
-      rcases hJ.anc e0 he0 hs1 with ha | ⟨p, hpf, hps⟩ | ⟨hnone, hlow⟩
-      · exact Or.inl ha
-      · right; left
+      rcases hJ.anc e0 he0 hs1 with hself | ha | ⟨p, hpf, hps⟩ | ⟨hnone, hlow⟩
+      · exact Or.inl hself
+      · exact Or.inr (Or.inl ha)
+      · right; right; left
         apply find_sent_of_isSent
         apply hmono
         simp [isSent, hpf, hps]
-      · right; right
+      · right; right; right
         refine ⟨?_, by rw [hsame.1]; exact hlow⟩
         have := hsame.find_isSome e0.blk.parent
         rw [hnone] at this
@@ -206,18 +221,19 @@ theorem inv2_movePurge (U : Id → Option Blk) (hU : UOK U) (F : List Id) (db : 
   · intro e he hs
     have hedb := mem_movePurge db R kept e he
     rw [hlib]
-    rcases hJ.anc e hedb hs with ha | ⟨p, hpf, hps⟩ | ⟨hnone, hlow⟩
-    · exact Or.inl (List.mem_append_left _ ha)
+    rcases hJ.anc e hedb hs with hself | ha | ⟨p, hpf, hps⟩ | ⟨hnone, hlow⟩
+    · exact Or.inl (List.mem_append_left _ hself)
+    · exact Or.inr (Or.inl (List.mem_append_left _ ha))
     · by_cases hkeep : R.num - kept ≤ p.blk.num
-      · exact Or.inr (Or.inl ⟨p, find_movePurge db R kept _ p hpf hkeep, hps⟩)
-      · right; right
+      · exact Or.inr (Or.inr (Or.inl ⟨p, find_movePurge db R kept _ p hpf hkeep, hps⟩))
+      · right; right; right
         refine ⟨find_movePurge_none db hw R kept _ (fun q hq => by rw [hpf] at hq; injection hq with hq; rw [← hq]; exact hkeep), ?_⟩
         intro pb hpb
         have := hJ.inU p (find_mem db _ p hpf)
         rw [find_id db _ p hpf, hpb] at this
         injection this with this
         rw [this]; omega
-    · right; right
+    · right; right; right
       refine ⟨find_movePurge_none db hw R kept _ (fun q hq => by rw [hnone] at hq; cases hq), ?_⟩
       intro pb hpb
       have := hlow pb hpb
@@ -254,18 +270,19 @@ theorem inv2_purgeSame (U : Id → Option Blk) (F : List Id) (db : DB) (hw : WfE
   · intro e he hs
     have hedb := mem_movePurge db db.libRef kept e he
     rw [hlib]
-    rcases hJ.anc e hedb hs with ha | ⟨p, hpf, hps⟩ | ⟨hnone, hlow⟩
-    · exact Or.inl ha
+    rcases hJ.anc e hedb hs with hself | ha | ⟨p, hpf, hps⟩ | ⟨hnone, hlow⟩
+    · exact Or.inl hself
+    · exact Or.inr (Or.inl ha)
     · by_cases hkeep : db.libRef.num - kept ≤ p.blk.num
-      · exact Or.inr (Or.inl ⟨p, find_movePurge db db.libRef kept _ p hpf hkeep, hps⟩)
-      · right; right
+      · exact Or.inr (Or.inr (Or.inl ⟨p, find_movePurge db db.libRef kept _ p hpf hkeep, hps⟩))
+      · right; right; right
         refine ⟨find_movePurge_none db hw db.libRef kept _ (fun q hq => by rw [hpf] at hq; injection hq with hq; rw [← hq]; exact hkeep), ?_⟩
         intro pb hpb
         have := hJ.inU p (find_mem db _ p hpf)
         rw [find_id db _ p hpf, hpb] at this
         injection this with this
         rw [this]; omega
-    · right; right
+    · right; right; right
       exact ⟨find_movePurge_none db hw db.libRef kept _ (fun q hq => by rw [hnone] at hq; cases hq), hlow⟩
   · intro e he
     exact hJ.inU e (mem_movePurge db db.libRef kept e he)
